@@ -254,6 +254,45 @@ def run(ctx):
         fp = FlowProperties({k: v.copy() for k, v in tb.items()}, 8000.0)
     scheds = {0: np.linspace(6000.0, 1500.0, 9), 1: np.linspace(5000.0, 3000.0, 9), 2: np.linspace(7000.0, 500.0, 6)}
     total = 0
+    # ---------------- the caller has escalated warnings to exceptions (pytest -W error, PYTHONWARNINGS=error): whatever a simulate call on
+    # an unusual-but-valid grid (a repeated time stamp, i.e. one zero-length step) then does - answer or raise - the object afterwards is a
+    # fresh object that ran that grid, or the object as it was before the call; never a mixture
+    for cls_w in (IdealReservoir, SinglePhaseReservoir):
+        grid_a = GRIDS[1].copy()
+        grid_b = np.concatenate([GRIDS[2][:4], GRIDS[2][3:]])        # one repeated entry
+        def mk_():
+            return cls_w(8, 1000.0, 8000.0, fp)
+        ref_a, ref_b = mk_(), mk_()
+        ref_a.simulate(grid_a.copy())
+        with warnings.catch_warnings():
+            warnings.simplefilter("ignore")
+            ref_b.simulate(grid_b.copy())
+            want_a = np.array(ref_a.recovery_factor_interpolator()(QUERY), float)
+            want_b = np.array(ref_b.recovery_factor_interpolator()(QUERY), float)
+        used = mk_()
+        used.simulate(grid_a.copy())
+        used.recovery_factor()
+        raised = None
+        with warnings.catch_warnings():
+            warnings.simplefilter("error")
+            try:
+                used.simulate(grid_b.copy())
+            except Exception as e:  # noqa: BLE001
+                raised = repr(e)[:120]
+        total += 1
+        try:
+            with warnings.catch_warnings():
+                warnings.simplefilter("ignore")
+                got_w = np.array(used.recovery_factor_interpolator()(QUERY), float)
+        except Exception as e:  # noqa: BLE001
+            got_w = repr(e)[:160]
+        want_w = want_a if raised else want_b
+        if isinstance(got_w, str) or not np.allclose(got_w, want_w, rtol=1e-12, atol=1e-15):
+            ctx.violations.append(dict(what="with warnings escalated to exceptions a simulate call on a grid with a repeated time stamp leaves the object in a state that is neither a fresh run of "
+                                            "that grid nor the object as it was before the call (later outputs mix two runs)", key="warnings-as-errors",
+                                       input=dict(cls=cls_w.__name__, history="simulate(A); recovery_factor(); [warnings.simplefilter('error')] simulate(B with one repeated time stamp); recovery_factor_interpolator()(query)",
+                                                  grid_A=[float(x) for x in grid_a], grid_B=[float(x) for x in grid_b], simulate_B_raised=raised),
+                                       observed=dict(interpolator=got_w if isinstance(got_w, str) else [float(x) for x in got_w], expected=[float(x) for x in want_w])))
     for cls, ops, maxlen in ((IdealReservoir, OPS_BASE + OPS_REJ[:1], 3 if ctx.quick else 5),
                              (SinglePhaseReservoir, OPS_BASE + OPS_SCHED + OPS_REJ, 3 if ctx.quick else 4)):
         env = Env(cls, fp, 8, 1000.0, 8000.0, scheds)
